@@ -6,6 +6,7 @@ import (
 
 	"github.com/superfly/litefs/verifharness/core"
 	"github.com/superfly/litefs/verifharness/dbreplay"
+	"github.com/superfly/litefs/verifharness/faults"
 	"github.com/superfly/litefs/verifharness/repl"
 	"github.com/superfly/litefs/verifharness/sim"
 	"github.com/superfly/litefs/verifharness/t3"
@@ -21,7 +22,11 @@ func main() {
 	if t3.MaybeReplay(rep, args, map[string]bool{"C04": true}) {
 		rep.Finish()
 	}
-	dbreplay.Post = func() { t3.Stage(rep, args, map[string]bool{"C04": true}) }
+	dbreplay.Post = func() {
+		// failure paths (spec/Faults.tla): every call of the operation through the OS interface fails once
+		faults.Run(rep, args, faults.Select{Ops: []string{"rb_commit", "wal_commit", "import", "recover", "halt"}, Monitors: []string{"checksum"}})
+		t3.Stage(rep, args, map[string]bool{"C04": true})
+	}
 	// replicated applies, snapshots, restarts and drops: the cluster scripts with this property's monitors
 	repl.Main(rep, args, map[string]bool{"C04": true}, []repl.Stage{
 		{Name: "repl-3n-2tx-2faults", Cfg: "MC_Repl_quick.cfg", Timeout: 10 * time.Minute, MaxKeep: core.Pick(args, 40, 300)},
